@@ -18,10 +18,11 @@ MCPoolB == << [pat |-> "*", sel |-> "s2", failAt |-> 1, hide |-> FALSE],
 MCPoolC == << [pat |-> "a", sel |-> "s1", failAt |-> 1, hide |-> TRUE],
               [pat |-> "a", sel |-> "s2", failAt |-> 0, hide |-> FALSE],
               [pat |-> "*", sel |-> "s1", failAt |-> 2, hide |-> FALSE] >>
-\* selection id -> <<responseKey, fieldName, condition>>; s2 uses an alias and two fields; both have a key whose presence
-\* depends on the variable $hide of the subscriber's own request
-MCSelKeys == [ s1 |-> << <<"name", "name", "">>, <<"n", "n", "incl">> >>,
-               s2 |-> << <<"n", "n", "skip">>, <<"t", "name", "">> >> ]
+\* selection id -> <<responseKey, fieldName, condition, form>>; s2 uses an alias and two fields; both have a key whose
+\* presence depends on the variable $hide of the subscriber's own request, written on a fragment spread in s1 and on
+\* an inline fragment in s2 (form "" = on the field itself)
+MCSelKeys == [ s1 |-> << <<"name", "name", "", "">>, <<"n", "n", "incl", "spread">> >>,
+               s2 |-> << <<"n", "n", "skip", "inline">>, <<"t", "name", "", "">> >> ]
 MCEvVals == [ e1 |-> [name |-> V("str", "one"), n |-> V("int", 1)],
               e2 |-> [name |-> V("str", "two"), n |-> V("int", 2)] ]
 
